@@ -436,7 +436,10 @@ def run(ctx: common.Ctx):
     ctx.sample({"lineprefix": ["  ", "a\n\nb\r\n"], "do_lineprefix": do_lineprefix("a\n\nb\r\n", "  "), "property_reference": ref_prefix("  ", "a\n\nb\r\n")})
 
     # ---- tie 2b: Lexer.tokeniter's source normalisation (keep_trailing_newline off/on) -------------------------
+    import time as _t
+    _t0 = _t.time(); ctx.extra["stream_seconds"] = {"before_normalisation": round(_t0 - ctx.t0, 1)}
     run_normalisation(ctx, drv, bj, sj)
+    ctx.extra["stream_seconds"]["normalisation"] = round(_t.time() - _t0, 1); _t0 = _t.time()
 
     # ---- tie 3 + search (ii-a): lineprefix -----------------------------------------------------------------
     lp_alpha = ["a", " ", "\n", "\r", "\u2028", "\x0b"]
@@ -483,13 +486,17 @@ def run(ctx: common.Ctx):
             fail(ctx, {"kind": classify_prefix(" ", str(val), got[1] if got[0] == "ok" else "")}, "lineprefix on Markup", {"stream": "lineprefix-nonstring", "value": repr(val), "got": got, "expected": want_})
 
     # ---- tie 4 + search (ii): marker placements x line-ending styles ----------------------------------------
+    ctx.extra["stream_seconds"]["lineprefix"] = round(_t.time() - _t0, 1); _t0 = _t.time()
     run_markers(ctx, drv, bj, sj, corpus["markers"])
+    ctx.extra["stream_seconds"]["markers"] = round(_t.time() - _t0, 1); _t0 = _t.time()
 
     # ---- tie 5 + search (iii): assert / ifuses in the real CodeGenEnvironment -------------------------------
     run_extensions(ctx, drv, bj, sj, cge, qtpl)
+    ctx.extra["stream_seconds"]["extensions"] = round(_t.time() - _t0, 1); _t0 = _t.time()
 
     # ---- tie 6 + search (i): differential ------------------------------------------------------------------
     run_differential(ctx, bj, sj, corpus["templates"])
+    ctx.extra["stream_seconds"]["expressions+differential"] = round(_t.time() - _t0, 1)
 
 
 # --------------------------------------------------------------------------------------------------
@@ -800,9 +807,91 @@ def run_extensions(ctx, drv, bj, sj, cge, qtpl):
 
 
 # --------------------------------------------------------------------------------------------------
+# structural tie: the parsers' syntax trees
+# --------------------------------------------------------------------------------------------------
+_AST_SKIP_FIELDS = {"required"}      # Block.required exists in 3.x only
+
+
+def canon_ast(n, mod):
+    """a parser node tree as nested tuples of (class name, (field, value)…); identical class and field names in both lines"""
+    if isinstance(n, mod.nodes.Node):
+        return (type(n).__name__,) + tuple((f, canon_ast(getattr(n, f), mod)) for f in n.fields if f not in _AST_SKIP_FIELDS)
+    if isinstance(n, (list, tuple)):
+        return tuple(canon_ast(x, mod) for x in n)
+    return (type(n).__name__, repr(n))
+
+
+def parse_tree(env, mod, src):
+    try:
+        return ("ok", canon_ast(env.parse(src), mod))
+    except RecursionError:
+        return ("err", "RecursionError")
+    except Exception as e:  # noqa: BLE001
+        return ("err", type(e).__name__)
+
+
+def first_ast_difference(x, y, path=()):
+    if x == y:
+        return None
+    if isinstance(x, tuple) and isinstance(y, tuple) and len(x) == len(y) and x and y and not (isinstance(x[0], str) and isinstance(y[0], str) and x[0] != y[0]):
+        for k, (p, q) in enumerate(zip(x, y)):
+            d = first_ast_difference(p, q, path + (k,))
+            if d:
+                return d
+    return {"path": list(path), "bundled": str(x)[:400], "stock": str(y)[:400]}
+
+
+def compare_ast(ctx, bj, sj, benv, senv, src, origin, settings):
+    if any(m in src for m in MARKERS):
+        return
+    a, b = parse_tree(benv, bj, src), parse_tree(senv, sj, src)
+    ctx.traces += 1
+    ctx.count("ast:" + ("both-parse" if a[0] == b[0] == "ok" else "both-reject" if a[0] == b[0] else "one-rejects"))
+    if a != b and not (a[0] == "err" and b[0] == "err"):
+        d = first_ast_difference(a[1], b[1]) if a[0] == b[0] == "ok" else {"bundled": a[1] if a[0] == "err" else "parses", "stock": b[1] if b[0] == "err" else "parses"}
+        fail(ctx, {"kind": "syntax-tree-differs-from-stock"}, "the bundled parser builds a different syntax tree than stock Jinja2 for a template without auto-indent marker",
+             dict({"stream": "ast", "origin": origin, "source": src, "first_difference": d}, **settings))
+
+
+def run_expressions(ctx, bj, sj):
+    """operator soup: expressions with every operator chained without parentheses — syntax trees and values in both engines"""
+    rng = ctx.rng
+    g = G.Gen(rng)
+    benv, senv = make_env(bj, {}), make_env(sj, {})
+    n = 3000 if ctx.quick else 18000
+    for i_ in range(n):
+        if i_ % 40 == 0:
+            context = g.context()
+        sc = g.root_scope()
+        e = g.s_expr(sc, rng.choice([0, 0, 0, 1]))
+        src = rng.choice(["{{ %s }}", "{{ %s }}", "{%% if %s %%}T{%% else %%}F{%% endif %%}", "{%% set q = %s %%}{{ q }}", "{{ (%s)|string|length }}", "{%% for q in [%s] %%}{{ q }}{%% endfor %%}"]) % e
+        ctx.case(("expr", src, repr(sorted(context.items()))), True)
+        ctx.count("expr")
+        compare_ast(ctx, bj, sj, benv, senv, src, "operator-soup", {})
+        def go(env=None, mod=None):
+            try:
+                return ("ok", guarded(lambda: env.from_string(src).render(**context)))
+            except Timeout:
+                return ("err", "Timeout")
+            except RecursionError:
+                return ("err", "RecursionError")
+            except Exception as ex:  # noqa: BLE001
+                return ("err", type(ex).__name__)
+        a, b = go(benv), go(senv)
+        ctx.count("expr:" + ("both-render" if a[0] == b[0] == "ok" else "both-fail" if a[0] == b[0] else "one-fails"))
+        if a != b and not (a[0] == "err" and b[0] == "err"):
+            fail(ctx, {"kind": "expression-value-differs-from-stock"}, "an expression evaluates differently in the bundled engine and in stock Jinja2",
+                 {"stream": "differential", "origin": "operator-soup", "templates": {"main": src}, "main": "main", "context": {k: repr(v) for k, v in context.items()},
+                  "context_json": _jsonable(context), "trim_blocks": False, "lstrip_blocks": False, "environment_options": {}, "bundled": a, "stock": b})
+    ctx.extra["expression_cases"] = n
+
+
 def compare_template_set(ctx, bj, sj, tpl, main, context, trim, lstrip, origin, opts=None):
     b = render(bj, tpl, main, context, trim, lstrip, opts=opts)
     s = render(sj, tpl, main, context, trim, lstrip, opts=opts)
+    benv, senv = make_env(bj, {}, trim, lstrip, opts=opts), make_env(sj, {}, trim, lstrip, opts=opts)
+    for name_, src_ in tpl.items():
+        compare_ast(ctx, bj, sj, benv, senv, src_, origin + ":" + name_, {"trim_blocks": trim, "lstrip_blocks": lstrip, "environment_options": opts or {}})
     has_marker = any(m in src for src in tpl.values() for m in MARKERS)
     nontrivial = any(("{%" in v or "{{" in v) for v in tpl.values())
     ctx.case(("tpl", json.dumps(tpl, sort_keys=True), repr(sorted(context.items(), key=lambda kv: kv[0])), trim, lstrip, repr(opts)), nontrivial)
@@ -842,8 +931,12 @@ def _jsonable(c):
 
 def run_differential(ctx, bj, sj, corpus_templates):
     rng = ctx.rng
-    plan = [((False, False), 1300 if ctx.quick else 20000), ((True, False), 250 if ctx.quick else 3000),
-            ((False, True), 250 if ctx.quick else 3000), ((True, True), 250 if ctx.quick else 3000)]
+    import time as _t
+    _t0 = _t.time()
+    run_expressions(ctx, bj, sj)
+    ctx.extra.setdefault("stream_seconds", {})["expressions"] = round(_t.time() - _t0, 1)
+    plan = [((False, False), 420 if ctx.quick else 5000), ((True, False), 90 if ctx.quick else 800),
+            ((False, True), 90 if ctx.quick else 800), ((True, True), 90 if ctx.quick else 800)]
     feats = {}
     for (trim, lstrip), n in plan:
         g = G.Gen(rng, trim=trim, lstrip=lstrip)
@@ -863,7 +956,7 @@ def run_differential(ctx, bj, sj, corpus_templates):
                 ctx.sample({"templates": tpl, "main": main, "trim_blocks": trim, "lstrip_blocks": lstrip})
     # templates of the shipped kind: the `{#*` comment (a plain Jinja2 comment that begins with a star) in grammar-generated surroundings
     g = G.Gen(rng)
-    for _ in range(150 if ctx.quick else 3000):
+    for _ in range(50 if ctx.quick else 500):
         tpl, main, context = g.template_set()
         blanks = rng.choice(["", " ", "  ", "\t"])
         tpl[main] = tpl[main] + rng.choice(["", "x", "\n"]) + blanks + "{#*" + rng.choice([" note ", "*** banner ***", ""]) + "#}" + rng.choice(["", "y", "\n"])
@@ -903,6 +996,12 @@ def replay(ctx, path):
         got = do_lineprefix(rp["s"], rp["prefix"])
         print(json.dumps({"got": got, "expected": ref_prefix(rp["prefix"], rp["s"])}))
         return 0 if got == ref_prefix(rp["prefix"], rp["s"]) else 1
+    if stream == "ast":
+        a = parse_tree(make_env(bj, {}, rp.get("trim_blocks", False), rp.get("lstrip_blocks", False), opts=rp.get("environment_options")), bj, rp["source"])
+        b = parse_tree(make_env(sj, {}, rp.get("trim_blocks", False), rp.get("lstrip_blocks", False), opts=rp.get("environment_options")), sj, rp["source"])
+        d = None if a == b else (first_ast_difference(a[1], b[1]) if a[0] == b[0] == "ok" else [a[:1], b[:1]])
+        print(json.dumps({"first_difference": d}))
+        return 0 if a == b or (a[0] == "err" and b[0] == "err") else 1
     if stream == "normalise":
         from nunavut.jinja.jinja2.lexer import Lexer
         o = {"keep_trailing_newline": rp["keep_trailing_newline"]}
